@@ -7,7 +7,10 @@ scratch="$(mktemp -d /tmp/gmut.XXXXXX)"
 trap 'rm -rf "$scratch"' EXIT
 mkdir -p "$scratch/repo"
 rsync -a --exclude .git --exclude tests --exclude docs /repo/ "$scratch/repo/"
-if ! (cd "$scratch/repo" && patch -p1 -s < "$patch"); then echo "$patch PATCH-FAILED"; exit 3; fi
+case "$patch" in
+  *.sh) (cd "$scratch/repo" && bash "$patch") || { echo "$patch MUTATOR-FAILED"; exit 3; } ;;
+  *) (cd "$scratch/repo" && patch -p1 -s < "$patch") || { echo "$patch PATCH-FAILED"; exit 3; } ;;
+esac
 for c in "$scratch"/repo/src/gambit/_cython/*.c; do
   so="${c%.c}.cpython-312-x86_64-linux-gnu.so"
   if [ "$c" -nt "$so" ]; then :; fi
